@@ -69,16 +69,29 @@ def fam(*names):
 
 
 def is_im0_data(v):
+    """could a mode-0 acceptance with supplied bytes happen in this vector?  (a maskable request carrying data, pending initially
+    or injected later; IFF1 / IM may change while the vector runs, so they are not consulted: a disagreement with the reference is
+    classified as the known finding only if the real code EQUALS the recorded description on that vector — see the callers)"""
     t = v.split()
-    if t[19] == '-':
-        return False
-    ty, data = t[19].split(':')
-    return ty != '0' and t[15][0] == '1' and t[16] == '0' and data != ''
+    reqs = []
+    if t[19] != '-':
+        reqs.append(t[19])
+    if 'INJ' in t:
+        inj = t[t.index('INJ') + 1]
+        if inj != '-':
+            reqs += [x.split('@', 1)[1] for x in inj.split(';') if '@' in x]
+    for r in reqs:
+        ty, _, data = r.partition(':')
+        if ty != '0' and data != '':
+            return True
+    return False
 
 
 def im0_window_hit(v, spec_line):
     """does the reference write into [PC, PC+len) (where the implementation drops writes)?"""
     t = v.split()
+    if ':' not in t[19]:
+        return False
     pc = int(t[14], 16)
     n = len(t[19].split(':')[1]) // 2
     m = re.search(r' MEM (\S+)', spec_line or '')
@@ -119,7 +132,7 @@ def corr_intr(n_quick, n_thorough):
     return run
 
 
-def corr_stream(kinds, want_spec=True, go_panic_is_violation=False, rule=''):
+def corr_stream(kinds, want_spec=True, go_panic_is_violation=False, rule='', go_timeout_is_violation=False):
     """kinds: list of (generator kind, n_quick, n_thorough, extra args)"""
     def run(ctx, chk, broken):
         vectors = ''
@@ -142,6 +155,12 @@ def corr_stream(kinds, want_spec=True, go_panic_is_violation=False, rule=''):
             if st == 'spec' and vid not in kf_bad and is_im0_data(v):
                 d['known'] = 'KF-2' if im0_window_hit(v, o) else 'KF-1'
             out.append(d)
+        if go_timeout_is_violation:
+            byid = {l.split(' ', 1)[0]: l for l in vectors.splitlines() if l.strip()}
+            for vid, g in go.items():
+                if 'deadline_exceeded' in g:
+                    out.append({'stream': 'real-no-halt', 'id': vid, 'vector': byid.get(vid), 'real': g[:1500],
+                                'other': 'the generated program terminates on a correct machine (every call returns, JP 0 halts at FF03h)'})
         if go_panic_is_violation:
             byid = {l.split(' ', 1)[0]: l for l in vectors.splitlines() if l.strip()}
             for vid, g in go.items():
@@ -454,7 +473,8 @@ def corr_c10(n_quick, n_thorough):
 
     def run(ctx, chk, broken):
         out, cov = inj(ctx, chk, broken)
-        out = [d for d in out if d['stream'] != 'transparency']       # transparency is C07's business
+        # transparency is C07's business; conformance of mode 0 to the reference (known findings KF-1/KF-2) is C06's
+        out = [d for d in out if d['stream'] != 'transparency' and not d.get('known')]
         n = n_thorough if ctx.tier == 'thorough' else n_quick
         vectors = chk.gen_vectors('inject', ['-seed', str(ctx.seed + 5), '-n', str(n), '-per', '0' if ctx.tier == 'thorough' else '24'])
         vectors += chk.gen_vectors('slots', ['-seed', str(ctx.seed + 5), '-per', '1'])
@@ -570,13 +590,14 @@ def corr_c12(ctx, chk, broken):
 
 PROPS = {
     'C01': {
-        'targets': ['Z80.Props.C01'],
-        'count': ALL_OBL + ['Z80/Props/C01.lean'],
+        'targets': ['Z80.Props.C01', 'Z80.Props.C01Frame'],
+        'audit_extra': ['C01Frame'],
+        'count': ALL_OBL + ['Z80/Props/C01.lean', 'Z80/Props/C01Frame.lean', 'Z80/Proofs/Decoded.lean', 'Z80/Proofs/Frame.lean', 'Z80/Proofs/Frame2.lean', 'Z80/Proofs/Mirror.lean', 'Z80/Proofs/OblB/*.lean', 'Z80/Proofs/TablesB/*.lean', 'Z80/Proofs/BusLemmas.lean', 'Z80/Proofs/StepB.lean', 'Z80/Proofs/IM0B.lean', 'Z80/Proofs/FrameB.lean'],
         'correspond': corr_slots(3, 40),
         'assumptions': ['user memory behaves as a byte store; the device answer is a function of the bus history',
                         'Impl.koron records the implementation-defined choices (bits 3/5 after SCF/CCF and BIT n,(HL); '
                         'undocumented flags of block I/O; DDCB counts three opcode fetches; byte order of word stores)'],
-        'explanation': 'Gen.Step = Spec.executeOne Impl.koron for every state (1788 per-slot obligations + 4 prefix arms + 7 table theorems)',
+        'explanation': 'Gen.Step = Spec.executeOne Impl.koron for every state (1788 per-slot obligations + 4 prefix arms + 7 table theorems); decoded form; per-field frame theorems over all instructions; a second, hypothesis-free obligation layer over every Memory value (bus layer) with the user-memory theorem as corollary',
     },
     'C03': {
         'targets': ['Z80.Props.C03'],
@@ -586,11 +607,13 @@ PROPS = {
         'explanation': 'addU16/adcU16/sbcU16 = arithmetic spec for all 2^33 inputs (symbolic carry-vector proof); 40 slot obligations; Step-level theorems for every ss encoding',
     },
     'C02': {
-        'targets': ['Z80.Props.C02'],
+        'targets': ['Z80.Props.C02', 'Z80.Props.SpecSanity', 'Z80.Props.SpecSanityDAA'],
+        'audit_extra': ['SpecSanity', 'SpecSanityDAA'],
         'count': HELPERS + fam('Alu8', 'IncDec8', 'RotShift', 'Bit') + ['Z80/Proofs/Families/Alu8.lean', 'Z80/Proofs/Families/IncDec8.lean',
-                                                                       'Z80/Proofs/Families/RotShift.lean', 'Z80/Proofs/Families/Bit.lean', 'Z80/Props/C02.lean'],
+                                                                       'Z80/Proofs/Families/RotShift.lean', 'Z80/Proofs/Families/Bit.lean', 'Z80/Props/C02.lean', 'Z80/Props/SpecSanity.lean', 'Z80/Props/SpecSanityDAA.lean'],
         'correspond': corr_slots(12, 200, family=['Alu8', 'IncDec8', 'RotShift', 'Bit']),
-        'assumptions': ['bits 3/5 after SCF/CCF and BIT n,(HL)/(IX+d) are implementation-defined (Impl.koron records: from A / cleared)'],
+        'assumptions': ['bits 3/5 after SCF/CCF and BIT n,(HL)/(IX+d) are implementation-defined (Impl.koron records: from A / cleared)',
+                        'the reference ALU is additionally validated by formula-free sanity theorems (Props/SpecSanity*.lean): DAA is decimal adjust for all packed-BCD operands, NEG = 0-A, CP = SUB without result, INC/DEC = ADD/SUB 1 without C, parity counts ones, rotates invertible, shifts arithmetic'],
         'explanation': 'helper characterisations for all A x operand x F (symbolic for binary ops, decide over the full table for unary/DAA); 559 slot obligations; Step-level theorems for every encoding; encoding independence',
     },
     'C04': {
@@ -603,11 +626,11 @@ PROPS = {
     },
     'C06': {
         'targets': ['Z80.Props.C06'],
-        'count': ['Z80/Proofs/Interrupt.lean', 'Z80/Proofs/IM0.lean', 'Z80/Proofs/Frame.lean', 'Z80/Props/C06.lean'] + ALL_OBL,
+        'count': ['Z80/Proofs/Interrupt.lean', 'Z80/Proofs/IM0.lean', 'Z80/Proofs/Frame.lean', 'Z80/Props/C06.lean', 'Z80/Proofs/OblB/*.lean', 'Z80/Proofs/TablesB/*.lean', 'Z80/Proofs/BusLemmas.lean', 'Z80/Proofs/StepB.lean', 'Z80/Proofs/IM0B.lean', 'Z80/Proofs/FrameB.lean'] + ALL_OBL,
         'correspond': corr_intr(3000, 60000),
         'assumptions': ['request types: Type = 0 is NMI, anything else maskable', 'IM 0 / IM 2 requests without data and IM outside {0,1,2} are outside the property; the code\'s behaviour (dropped / never accepted) is recorded in the specification',
-                        'mode 0 with supplied bytes: known findings KF-1, KF-2; for a supplied RST p the regenerated Step is PROVED equal to the recorded description Spec.stepKF for every state (C06_im0_rst); other supplied instructions are compared with it by correspondence only'],
-        'explanation': 'Gen.Step with a pending request = abstract interrupt controller (NMI, refused, IM 1, IM 2, empty, bad mode) for every state; pending-request induction; EI/DI/RETN/RETI',
+                        'mode 0 with supplied bytes: known findings KF-1, KF-2; the regenerated Step is PROVED equal to the recorded description (one reference instruction through the overlay bus, Spec.im0StepB) for EVERY supplied instruction and every state (C06_step_any, via the bus-layer obligations); for RST p / CALL nn additionally equal to the older memory-overlay description Spec.stepKF (C06_im0_rst, C06_im0_call)'],
+        'explanation': 'Gen.Step with a pending request = abstract interrupt controller (NMI, refused, IM 1, IM 2, empty, bad mode) for every state; mode 0 with ANY supplied bytes = the recorded description (C06_step_any); pending-request induction; EI/DI/RETN/RETI',
     },
     'C05': {
         'targets': ['Z80.Props.C05'],
@@ -628,11 +651,11 @@ PROPS = {
     },
     'C12': {
         'targets': ['Z80.Props.C12'],
-        'count': ALL_OBL + ['Z80/Proofs/Frame.lean', 'Z80/Proofs/Interrupt.lean', 'Z80/Props/C12.lean'],
+        'count': ALL_OBL + ['Z80/Proofs/Frame.lean', 'Z80/Proofs/Interrupt.lean', 'Z80/Props/C12.lean', 'Z80/Proofs/OblB/*.lean', 'Z80/Proofs/TablesB/*.lean', 'Z80/Proofs/BusLemmas.lean', 'Z80/Proofs/StepB.lean', 'Z80/Proofs/IM0B.lean', 'Z80/Proofs/FrameB.lean'],
         'correspond': corr_c12,
         'assumptions': ['user Memory/IO are total functions in the model; the bundled short DumbMemory / DumbIO / MapMemory are exercised on the real code (short-memory stream) and modelled in C15',
-                        'partial: mode-0 requests with supplied bytes run every decode arm over the overlay memory; that composition is exercised by the malformed stream, not proved (the overlay accessors themselves are proved total)'],
-        'explanation': 'Gen.Step never reaches a panic for every state with user memory and every request outside mode-0-with-data; overlay accessors total for every data length/start/address; unsupported opcodes consumed',
+                        'mode-0 requests with supplied bytes run every decode arm over the overlay bus: proved total through the hypothesis-free bus-layer obligations (C12_executeOne_total, C12_step_all)'],
+        'explanation': 'Gen.Step never reaches a panic for EVERY state with the user memory installed and EVERY pending request (C12_step_all); Gen.executeOne never panics for every state and every Memory value; overlay accessors total for every data length/start/address; unsupported opcodes consumed',
     },
     'C13': {
         'targets': ['Z80.Props.C13'],
@@ -719,7 +742,7 @@ PROPS = {
     'C18': {
         'targets': ['Z80.Props.C18'],
         'count': ['Z80/Props/C18.lean', 'Z80/Props/C01.lean', 'Z80/Proofs/Block.lean', 'Z80/Proofs/RunLoop.lean'] + ALL_OBL,
-        'correspond': corr_stream([('cpm', 300, 5000, ['-per', '1'])], want_spec=True,
+        'correspond': corr_stream([('cpm', 300, 5000, ['-per', '1'])], want_spec=True, go_timeout_is_violation=True,
                                   rule='one vector = one program run by CPU.Run on the REAL tinycpm machine (a copy of internal/tinycpm taken at check time; console writer and warning logger captured): 1-5 mixed calls of '
                                        'function 2 (any byte), function 9 (strings of length 0..400 and one of 4096, every byte value except $, incl. 00h/80h/FFh, strings crossing 256-byte pages or ending exactly at a page end), '
                                        'unsupported function numbers, writes to other ports and port reads; then JP 0. Compared: console bytes in order, number of warnings, final PC/SP/HALT, Run result — with the regenerated CPU model '
